@@ -27,6 +27,7 @@ const (
 
 func c03prop(r *simkit.Run) {
 	rt := r.T
+	guardRun = r
 	inDomain := rapid.IntRange(0, 9).Draw(rt, "domain") != 0
 	maxAvg := int64(rapid.SampledFrom([]int{3, 10, 50, 1000}).Draw(rt, "avg-scale"))
 	rates := drawRates(rt, inDomain, maxAvg)
